@@ -362,25 +362,226 @@ package core
 //@   modifies *
 //@ extern func github.com/sourcegraph/conc.(*WaitGroup).Wait
 //@   modifies *
+//@ ghost func feltOfUint(v uint64) felt.Felt
+//@ ghost func feltOfBytes(e []byte) felt.Felt
 //@ extern func github.com/NethermindEth/juno/core/felt.(*Felt).SetBytes
 //@   logged as FeltSetBytes
-//@   ensures result == z
+//@   modifies *z
+//@   ensures result == z && *z == feltOfBytes(e)
 //@ extern func github.com/NethermindEth/juno/core/felt.(*Felt).SetUint64
-//@   ensures result == z
+//@   modifies *z
+//@   ensures result == z && *z == feltOfUint(v)
+//@ extern func github.com/NethermindEth/juno/core/felt.NewFromUint64
+//@   ensures result != nil && fresh(result) && *result == feltOfUint(num)
+// what each commitment function computes, as a function of what it is given
+//@ ghost func txCommitPedersen(txs []Transaction, version string) felt.Felt
+//@ ghost func txCommit0132(txs []Transaction) felt.Felt
+//@ ghost func txCommit0134(txs []Transaction) felt.Felt
+//@ ghost func eventCommitPedersen(rs []*TransactionReceipt) felt.Felt
+//@ ghost func eventCommitPoseidon(rs []*TransactionReceipt) felt.Felt
+//@ ghost func receiptCommit(rs []*TransactionReceipt) felt.Felt
+//@ ghost func diffHashOf(d *StateDiff) felt.Felt
+//@ ghost func diffLengthOf(d *StateDiff) uint64
+//@ ghost func countsWord(txCount uint64, eventCount uint64, stateDiffLen uint64, l1Mode L1DAMode) felt.Felt
+//@ func transactionCommitmentPedersen
+//@   trusted
+//@   ensures result0 == txCommitPedersen(transactions, protocolVersion)
+//@ func transactionCommitmentPoseidon0132
+//@   trusted
+//@   ensures result0 == txCommit0132(transactions)
+//@ func transactionCommitmentPoseidon0134
+//@   trusted
+//@   ensures result0 == txCommit0134(transactions)
+//@ func eventCommitmentPedersen
+//@   trusted
+//@   ensures result0 == eventCommitPedersen(receipts)
+//@ func eventCommitmentPoseidon
+//@   trusted
+//@   ensures result0 == eventCommitPoseidon(receipts)
+//@ func receiptCommitment
+//@   trusted
+//@   ensures result0 == receiptCommit(receipts)
+//@ func (*StateDiff).Hash
+//@   trusted
+//@   ensures result == diffHashOf(d)
+//@ func (*StateDiff).Length
+//@   trusted
+//@   ensures result == diffLengthOf(d)
 //@ func ConcatCounts
 //@   trusted
+//@   ensures result == countsWord(txCount, eventCount, stateDiffLen, l1Mode)
+// The gas-prices word: wei before fri, L1 gas, then L1 data gas, then L2 gas.
 //@ func gasPricesHash
-//@   trusted
+//@   props C02
+//@   logged
+//@   arith int
+//@   nosafe
+//@   assigns calls_PoseidonElems, arg_PoseidonElems_elems
+//@   callsite PoseidonElems@*: prices_preimage: len(elems) == 7 && elems[0] == starknetGasPrices0 && elems[1] == gasPrices.PriceInWei && elems[2] == gasPrices.PriceInFri && elems[3] == dataGasPrices.PriceInWei && elems[4] == dataGasPrices.PriceInFri && elems[5] == l2GasPrices.PriceInWei && elems[6] == l2GasPrices.PriceInFri
+//@   ensures hashed_once: calls_PoseidonElems == old(calls_PoseidonElems) + 1
 //@ func post0134Hash
 //@   props C02
+//@   logged
 //@   arith int
 //@   nosafe
 //@   requires b != nil && b.Header != nil && b.L1DataGasPrice != nil && b.L2GasPrice != nil
 //@   modifies *
-//@   assigns calls_PoseidonElems, arg_PoseidonElems_elems, calls_FeltSetBytes, arg_FeltSetBytes_e
+//@   assigns calls_PoseidonElems, arg_PoseidonElems_elems, calls_FeltSetBytes, arg_FeltSetBytes_e, calls_gasPricesHash, arg_gasPricesHash_gasPrices, arg_gasPricesHash_dataGasPrices, arg_gasPricesHash_l2GasPrices
 //@   callsite SetBytes@*: version_as_in_the_header: $1 == bytes(b.ProtocolVersion)
 //@   callsite PoseidonElems@*: block_preimage: len(elems) == 14 && elems[0] == starknetBlockHash1 && elems[2] == b.GlobalStateRoot && elems[3] == b.SequencerAddress && elems[12] == &felt.Zero && elems[13] == b.ParentHash
+//@   callsite PoseidonElems@*: commitments_in_their_slots: elems[5] == &concatCounts && elems[6] == &sdCommitment && elems[7] == &txCommitment && elems[8] == &eCommitment && elems[9] == &rCommitment && elems[10] == &pricesHash
+//@   callsite PoseidonElems@*: number_time_version: *elems[1] == feltOfUint(b.Number) && *elems[4] == feltOfUint(b.Timestamp) && *elems[11] == feltOfBytes(bytes(b.ProtocolVersion))
+//@   callsite PoseidonElems@*: counts_word: *elems[5] == countsWord(b.TransactionCount, b.EventCount, sdLength, b.L1DAMode)
+//@   callsite gasPricesHash@*: the_headers_prices: gasPrices.PriceInWei == b.L1GasPriceETH && gasPrices.PriceInFri == b.L1GasPriceSTRK && dataGasPrices == *b.L1DataGasPrice && l2GasPrices == *b.L2GasPrice
+//@   ensures hashed_once: result2 == nil ==> calls_PoseidonElems == old(calls_PoseidonElems) + 2 && calls_gasPricesHash == old(calls_gasPricesHash) + 1 && calls_FeltSetBytes == old(calls_FeltSetBytes) + 1
+
+// The concurrent tasks of the three newer formulas: each computes one commitment over the block's own
+// list with the back-end handed in, and stores it in the cell that the element list then points to.
+// (Their scheduling by the wait group is outside the model: DESIGN.md 4.)
+//@ func post0134Hash$1
+//@   props C02
+//@   arith int
+//@   nosafe
+//@   requires *b != nil && (*b).Header != nil
+//@   modifies *
+//@   callsite transactionCommitmentPoseidon0134@*: on_the_blocks_own_list: $0 == (*b).Transactions && $1 == *backend
+//@   ensures stored_in_its_cell: *txCommitment == txCommit0134((*b).Transactions)
+//@ func post0134Hash$2
+//@   props C02
+//@   arith int
+//@   nosafe
+//@   requires *b != nil && (*b).Header != nil
+//@   modifies *
+//@   callsite eventCommitmentPoseidon@*: on_the_blocks_own_list: $0 == (*b).Receipts && $1 == *backend
+//@   ensures stored_in_its_cell: *eCommitment == eventCommitPoseidon((*b).Receipts)
+//@ func post0134Hash$3
+//@   props C02
+//@   arith int
+//@   nosafe
+//@   requires *b != nil && (*b).Header != nil
+//@   modifies *
+//@   callsite receiptCommitment@*: on_the_blocks_own_list: $0 == (*b).Receipts && $1 == *backend
+//@   ensures stored_in_its_cell: *rCommitment == receiptCommit((*b).Receipts)
+//@ func post0134Hash$4
+//@   props C02
+//@   arith int
+//@   nosafe
+//@   modifies *
+//@   ensures stored_in_their_cells: *sdLength == diffLengthOf(*stateDiff) && *sdCommitment == diffHashOf(*stateDiff)
+//@ func Post0132Hash$1
+//@   props C02
+//@   arith int
+//@   nosafe
+//@   requires *b != nil && (*b).Header != nil
+//@   modifies *
+//@   callsite transactionCommitmentPoseidon0132@*: on_the_blocks_own_list: $0 == (*b).Transactions && $1 == *backend
+//@   ensures stored_in_its_cell: *txCommitment == txCommit0132((*b).Transactions)
+//@ func Post0132Hash$2
+//@   props C02
+//@   arith int
+//@   nosafe
+//@   requires *b != nil && (*b).Header != nil
+//@   modifies *
+//@   callsite eventCommitmentPoseidon@*: on_the_blocks_own_list: $0 == (*b).Receipts && $1 == *backend
+//@   ensures stored_in_its_cell: *eCommitment == eventCommitPoseidon((*b).Receipts)
+//@ func Post0132Hash$3
+//@   props C02
+//@   arith int
+//@   nosafe
+//@   requires *b != nil && (*b).Header != nil
+//@   modifies *
+//@   callsite receiptCommitment@*: on_the_blocks_own_list: $0 == (*b).Receipts && $1 == *backend
+//@   ensures stored_in_its_cell: *rCommitment == receiptCommit((*b).Receipts)
+//@ func Post0132Hash$4
+//@   props C02
+//@   arith int
+//@   nosafe
+//@   modifies *
+//@   ensures stored_in_their_cells: *sdLength == diffLengthOf(*stateDiff) && *sdCommitment == diffHashOf(*stateDiff)
+//@ func post07Hash$1
+//@   props C02
+//@   arith int
+//@   nosafe
+//@   requires *b != nil && (*b).Header != nil
+//@   modifies *
+//@   callsite transactionCommitmentPedersen@*: on_the_blocks_own_list: $0 == (*b).Transactions && $1 == (*b).ProtocolVersion && $2 == *backend
+//@   ensures stored_in_its_cell: *txCommitment == txCommitPedersen((*b).Transactions, (*b).ProtocolVersion)
+//@ func post07Hash$2
+//@   props C02
+//@   arith int
+//@   nosafe
+//@   requires *b != nil && (*b).Header != nil
+//@   modifies *
+//@   callsite eventCommitmentPedersen@*: on_the_blocks_own_list: $0 == (*b).Receipts && $1 == *backend
+//@   ensures stored_in_its_cell: *eCommitment == eventCommitPedersen((*b).Receipts)
+//@ func post07Hash$3
+//@   props C02
+//@   arith int
+//@   nosafe
+//@   requires *b != nil && (*b).Header != nil
+//@   modifies *
+//@   callsite receiptCommitment@*: on_the_blocks_own_list: $0 == (*b).Receipts && $1 == *backend
+//@   ensures stored_in_its_cell: *rCommitment == receiptCommit((*b).Receipts)
+
+// Which formula hashes a block: decided by the header's protocol version and, below 0.13.2, by the
+// block number against the network's first post-0.7 block. Exactly one of the four formulas is
+// evaluated, on this block, this state diff and this back-end.
+// Before Cairo 0.7.0: twelve Pedersen elements; sequencer, timestamp, event count, event commitment,
+// version and extra data are reserved zeros, the chain id is committed to.
+//@ func pre07Hash
+//@   props C02
+//@   logged
+//@   arith int
+//@   nosafe
+//@   requires b != nil && b.Header != nil
+//@   modifies *
+//@   assigns calls_PedersenElems, arg_PedersenElems_elems
+//@   callsite transactionCommitmentPedersen@*: over_the_blocks_transactions: $0 == b.Transactions && $1 == b.ProtocolVersion && $2 == backend
+//@   callsite PedersenElems@*: block_preimage: len(elems) == 12 && *elems[0] == feltOfUint(b.Number) && elems[1] == b.GlobalStateRoot && elems[2] == &felt.Zero && elems[3] == &felt.Zero && *elems[4] == feltOfUint(b.TransactionCount) && elems[5] == &txCommitment && elems[6] == &felt.Zero && elems[7] == &felt.Zero && elems[8] == &felt.Zero && elems[9] == &felt.Zero && elems[10] == chain && elems[11] == b.ParentHash
+//@   callsite PedersenElems@*: the_commitment_just_computed: *elems[5] == txCommitPedersen(b.Transactions, b.ProtocolVersion)
+//@   ensures hashed_once: result2 == nil ==> calls_PedersenElems == old(calls_PedersenElems) + 1
+//@   ensures commitments_returned: result2 == nil ==> result1 != nil && result1.TransactionCommitment != nil && *result1.TransactionCommitment == old(txCommitPedersen(b.Transactions, b.ProtocolVersion))
+// From Cairo 0.7.0 to 0.13.1: eleven Pedersen elements; the sequencer is the header's unless the
+// caller overrides it (old blocks without one), version and extra data are reserved zeros, no chain id.
+//@ func post07Hash
+//@   props C02
+//@   logged
+//@   arith int
+//@   nosafe
+//@   requires b != nil && b.Header != nil
+//@   modifies *
+//@   assigns calls_PedersenElems, arg_PedersenElems_elems
+//@   callsite PedersenElems@*: block_preimage: len(elems) == 11 && *elems[0] == feltOfUint(b.Number) && elems[1] == b.GlobalStateRoot && (overrideSeqAddr != nil ==> elems[2] == overrideSeqAddr) && (overrideSeqAddr == nil ==> elems[2] == old(b.SequencerAddress)) && *elems[3] == feltOfUint(b.Timestamp) && *elems[4] == feltOfUint(b.TransactionCount) && elems[5] == &txCommitment && *elems[6] == feltOfUint(b.EventCount) && elems[7] == &eCommitment && elems[8] == &felt.Zero && elems[9] == &felt.Zero && elems[10] == b.ParentHash
+//@   ensures hashed_once: result2 == nil ==> calls_PedersenElems == old(calls_PedersenElems) + 1
+// 0.13.2 and 0.13.3: seventeen Poseidon elements; the four gas prices individually (absent ones as
+// zero), the version string byte for byte.
+//@ func Post0132Hash
+//@   props C02
+//@   logged
+//@   arith int
+//@   nosafe
+//@   requires b != nil && b.Header != nil
+//@   modifies *
+//@   assigns calls_PoseidonElems, arg_PoseidonElems_elems, calls_FeltSetBytes, arg_FeltSetBytes_e
+//@   callsite PoseidonElems@*: block_preimage: len(elems) == 17 && elems[0] == starknetBlockHash0 && *elems[1] == feltOfUint(b.Number) && elems[2] == b.GlobalStateRoot && (b.SequencerAddress != nil ==> elems[3] == b.SequencerAddress) && (b.SequencerAddress == nil ==> elems[3] == &felt.Zero) && *elems[4] == feltOfUint(b.Timestamp) && elems[5] == &concatCounts && elems[6] == &sdCommitment && elems[7] == &txCommitment && elems[8] == &eCommitment && elems[9] == &rCommitment && elems[10] == b.L1GasPriceETH && elems[15] == &felt.Zero && elems[16] == b.ParentHash
+//@   callsite PoseidonElems@*: prices_or_zero: (b.L1GasPriceSTRK != nil ==> elems[11] == b.L1GasPriceSTRK) && (b.L1GasPriceSTRK == nil ==> elems[11] == &felt.Zero) && (b.L1DataGasPrice != nil && b.L1DataGasPrice.PriceInWei != nil ==> elems[12] == b.L1DataGasPrice.PriceInWei) && (b.L1DataGasPrice == nil || b.L1DataGasPrice.PriceInWei == nil ==> elems[12] == &felt.Zero) && (b.L1DataGasPrice != nil && b.L1DataGasPrice.PriceInFri != nil ==> elems[13] == b.L1DataGasPrice.PriceInFri) && (b.L1DataGasPrice == nil || b.L1DataGasPrice.PriceInFri == nil ==> elems[13] == &felt.Zero)
+//@   callsite PoseidonElems@*: counts_and_version: *elems[5] == countsWord(b.TransactionCount, b.EventCount, sdLength, b.L1DAMode) && *elems[14] == feltOfBytes(bytes(b.ProtocolVersion))
+//@   callsite SetBytes@*: version_as_in_the_header: $1 == bytes(b.ProtocolVersion)
 //@   ensures hashed_once: result2 == nil ==> calls_PoseidonElems == old(calls_PoseidonElems) + 1 && calls_FeltSetBytes == old(calls_FeltSetBytes) + 1
+//@ func BlockHash
+//@   props C02
+//@   arith int
+//@   nosafe
+//@   requires b != nil && b.Header != nil && network != nil && Ver0_13_4 != nil && Ver0_13_2 != nil
+//@   requires gas_prices_present_from_0_13_4: !verLess(blockVer(b.ProtocolVersion), *Ver0_13_4) ==> b.L1DataGasPrice != nil && b.L2GasPrice != nil
+//@   modifies *
+//@   assigns calls_post0134Hash, arg_post0134Hash_b, arg_post0134Hash_stateDiff, arg_post0134Hash_backend, calls_Post0132Hash, arg_Post0132Hash_b, arg_Post0132Hash_stateDiff, arg_Post0132Hash_backend, calls_post07Hash, arg_post07Hash_b, arg_post07Hash_stateDiff, arg_post07Hash_overrideSeqAddr, arg_post07Hash_backend, calls_pre07Hash, arg_pre07Hash_b, arg_pre07Hash_stateDiff, arg_pre07Hash_chain, arg_pre07Hash_backend
+//@   callsite post0134Hash@*: from_0_13_4_on: $0 == b && $1 == stateDiff && $2 == backend && !verLess(blockVer(b.ProtocolVersion), *Ver0_13_4)
+//@   callsite Post0132Hash@*: from_0_13_2_below_0_13_4: $0 == b && $1 == stateDiff && $2 == backend && verLess(blockVer(b.ProtocolVersion), *Ver0_13_4) && !verLess(blockVer(b.ProtocolVersion), *Ver0_13_2)
+//@   callsite post07Hash@*: below_0_13_2_from_the_first_07_block: $0 == b && $1 == stateDiff && $2 == overrideSeqAddr && $3 == backend && verLess(blockVer(b.ProtocolVersion), *Ver0_13_2) && b.Number >= network.BlockHashMetaInfo.First07Block
+//@   callsite pre07Hash@*: before_the_first_07_block: $0 == b && $1 == stateDiff && $2 == chainIDOf(network) && $3 == backend && verLess(blockVer(b.ProtocolVersion), *Ver0_13_2) && b.Number < network.BlockHashMetaInfo.First07Block
+//@   ensures exactly_one_formula: result2 == nil ==> (calls_post0134Hash - old(calls_post0134Hash)) + (calls_Post0132Hash - old(calls_Post0132Hash)) + (calls_post07Hash - old(calls_post07Hash)) + (calls_pre07Hash - old(calls_pre07Hash)) == 1
+//@   ensures unparsable_version_refused: !old(verParses(b.ProtocolVersion)) ==> result2 != nil
 
 // ---- writing a block's transactions: one hash lookup per transaction and ALWAYS the combined entry -
 // Also for a block without transactions: readers of an empty block look the (empty) combined entry up.
